@@ -1282,7 +1282,9 @@ func solve(g *Gen, fname string) ([]result, bool) {
 		o, _ := c.Output()
 		vac <- firstLine(o)
 	}()
-	cmd := exec.Command("z3", "-in", "-T:60", "smt.mbqi=false", "smt.auto_config=false", fmt.Sprintf("smt.random_seed=%d", solverSeed))
+	// array extensionality is switched off in the main session (it only weakens the solver, and made a function with a
+	// 25-entry map literal take 33 s instead of 0.1 s); an obligation that needs it is decided by the second chance below
+	cmd := exec.Command("z3", "-in", "-T:60", "smt.mbqi=false", "smt.auto_config=false", "smt.array.extensional=false", fmt.Sprintf("smt.random_seed=%d", solverSeed))
 	cmd.Stdin = bytes.NewReader(sb.Bytes())
 	out, _ := cmd.Output()
 	sc := bufio.NewScanner(bytes.NewReader(out))
